@@ -405,6 +405,13 @@ def rule_call_time_params(rule, repo, files=None):
                                   '%s reads the chain parameters at import time (%s): the value does not follow SelectParams()' % (where, norm(node)))
             scan(node, in_func, where)
         scan(m.tree, False, 'module level')
+        # a memoised function that reads the chain parameters freezes, per argument, the chain selected at its first call
+        for fn in ast.walk(m.tree):
+            if isinstance(fn, (ast.FunctionDef, ast.AsyncFunctionDef)):
+                memo = [d for d in fn.decorator_list if 'cache' in (norm(d.func) if isinstance(d, ast.Call) else norm(d)).lower()]
+                if memo and any(_is_param_read(repo, m, x) for b in fn.body for x in ast.walk(b)):
+                    rule.violated('memoised:%s.%s' % (m.name, fn.name), site_of(m, fn),
+                                  '%s is memoised (%s) and reads the selected-chain parameters: a result computed under one chain is served after SelectParams() picked another' % (fn.name, norm(memo[0])[:40]))
     rule.ok('reads-in-function-bodies', '', '%d reads of the selected-chain globals, all evaluated at call time' % n_body)
     rule.note('%d call-time reads' % n_body)
     return n_body
